@@ -16,7 +16,7 @@ From Coq Require Import String.
 From Coq Require Import List ZArith Bool Arith Ring.
 Import ListNotations.
 Require Import Base.C05_Np Model.C05_BC Model.C06_Galerkin Proofs.C05_CondenseProofs Proofs.C06_GalerkinProofs
-               Base.C09_Poly Base.C09_PolyQ Model.C08_Rules Model.C02_PolyInt Proofs.C06_CompleteProofs Proofs.C06_GreenProofs Proofs.C06_PatchProofs
+               Base.C09_Poly Base.C09_PolyQ Model.C08_Rules Model.C02_PolyInt Proofs.C06_CompleteProofs Proofs.C02_PolyIntProofs Proofs.C06_GreenProofs Proofs.C06_LinearProofs Proofs.C06_PatchProofs
                Gen.C06Gen Gen.C06Complete Gen.C06Green Dyn.C06Tie.
 
 Definition is_ring {R} (o : ring_ops R) := ring_theory (r0 o) (r1 o) (radd o) (rmul o) (rsub o) (ropp o) (@eq R).
@@ -153,6 +153,13 @@ Theorem C06_green_reference_cells :
                       (green_rhs (rc_shape (ge_cell e)) (rc_facets (ge_cell e)) (pmono m) phi).
 Proof. split; [vm_compute; reflexivity | exact (green_reference_cells gen_green gen_green_ok)]. Qed.
 Print Assumptions C06_green_reference_cells.
+
+(* ... and, pint / pderiv / the facet pull-back being linear, for EVERY polynomial p of the class's degree (not only monomials) *)
+Theorem C06_green_reference_cells_all_polynomials :
+  forall e, In e gen_green -> forall phi, In phi (ge_basis e) -> forall p, gpoly_within e p ->
+    QArith_base.Qeq (green_lhs (rc_shape (ge_cell e)) p phi) (green_rhs (rc_shape (ge_cell e)) (rc_facets (ge_cell e)) p phi).
+Proof. exact (green_reference_cells_all_polynomials gen_green gen_green_ok). Qed.
+Print Assumptions C06_green_reference_cells_all_polynomials.
 
 (* ---- the patch test from Green's identity, hypotheses explicit (any ring, any mesh connectivity g, any local matrices K_e and
    loads L_e assembled in the library's COO order).  x* = coefficients of the discrete function u_h.
